@@ -1,7 +1,7 @@
 """Delta-debugging shrinker for E1 programs (greedy, structure-aware)."""
 import copy
 
-KINDS = {"text", "elem", "if", "for", "with", "var", "slot", "comp", "probe", "dataref", "defaultref", "provide", "idecho", "injecho", "fill", "fp"}
+KINDS = {"text", "elem", "if", "for", "with", "var", "slot", "comp", "probe", "dataref", "defaultref", "provide", "idecho", "injecho", "fill", "fp", "pyecho", "raw"}
 
 
 def _is_nodelist(x):
